@@ -31,6 +31,7 @@ func freeMulti(m *multi) {
 	m.calls = m.calls[:0]
 	// set m.regions to nil because the slice is not reused.
 	m.regions = nil
+	m.callRegions = nil
 	m.size = 0
 	multiPool.Put(m)
 }
@@ -40,6 +41,19 @@ type multi struct {
 	calls []hrpc.Call
 	// regions preserves the order of regions to match against RegionActionResults
 	regions []hrpc.RegionInfo
+	// callRegions are the regions of calls when the request was serialized.
+	// A call can be given another region (to be retried) as soon as
+	// its result has been returned, while results of other calls are still
+	// being returned.
+	callRegions []hrpc.RegionInfo
+}
+
+// regionOf returns the region that the i-th call c was sent to.
+func (m *multi) regionOf(i int, c hrpc.Call) hrpc.RegionInfo {
+	if i < len(m.callRegions) {
+		return m.callRegions[i]
+	}
+	return c.Region()
 }
 
 func newMulti(queueSize int) *multi {
@@ -76,6 +90,7 @@ func (m *multi) toProto(isCellblocks bool, cbs [][]byte) (proto.Message, [][]byt
 
 	pbActions := make([]pb.Action, len(m.calls))
 	indices := make([]uint32, len(m.calls))
+	m.callRegions = make([]hrpc.RegionInfo, len(m.calls))
 	for i, c := range m.calls {
 		if c.Context().Err() != nil {
 			// context has expired, don't bother sending it
@@ -83,10 +98,11 @@ func (m *multi) toProto(isCellblocks bool, cbs [][]byte) (proto.Message, [][]byt
 			continue
 		}
 
-		as, ok := actionsPerReg[c.Region()]
+		m.callRegions[i] = c.Region()
+		as, ok := actionsPerReg[m.callRegions[i]]
 		if !ok {
 			as = &actions{}
-			actionsPerReg[c.Region()] = as
+			actionsPerReg[m.callRegions[i]] = as
 		}
 
 		var msg proto.Message
@@ -174,7 +190,7 @@ func (m *multi) validateResponse(msg proto.Message) error {
 					"got exception for region, but still have %d result(s) returned from it", l)
 			}
 			for j, c := range m.calls {
-				if c == nil || c.Region() != m.regions[i] {
+				if c == nil || m.regionOf(j, c) != m.regions[i] {
 					continue
 				}
 				if seen[j] {
@@ -280,11 +296,11 @@ func (m *multi) returnResults(msg proto.Message, err error) {
 			reg := m.regions[i]
 
 			err := exceptionToError(*e.Name, string(e.Value))
-			for _, c := range m.calls {
+			for j, c := range m.calls {
 				if c == nil {
 					continue
 				}
-				if c.Region() == reg {
+				if m.regionOf(j, c) == reg {
 					c.ResultChan() <- hrpc.RPCResult{Error: err}
 				}
 			}
